@@ -505,3 +505,87 @@ func runSweep(repo, id string, base *Result) *SweepEvidence {
 	}
 	return ev
 }
+
+// sweepAll (developer tool, `-sweepall`): neutralises every candidate
+// statement of the module once and runs all properties on each variant,
+// printing which properties detect it. Used to look for coverage gaps.
+func sweepAll(repo string) {
+	base, err := Load(repo, quickConfigs[0], nil)
+	if err != nil {
+		fmt.Println(err)
+		return
+	}
+	want := map[string]bool{}
+	for _, f := range base.Funcs {
+		want[f.String()] = true
+	}
+	cands := sweepCandidates(base, want)
+	var ids []string
+	for id := range properties {
+		ids = append(ids, id)
+	}
+	sort.Strings(ids)
+	baseStatus := map[string]map[string]string{}
+	for _, id := range ids {
+		res := NewResult(id, base)
+		func() {
+			defer func() { recover() }()
+			properties[id].Run(base, res)
+			res.applyFloors()
+		}()
+		m := map[string]string{}
+		for _, o := range res.Obs {
+			m[o.Key()] = o.Status
+		}
+		baseStatus[id] = m
+	}
+	var mu sync.Mutex
+	var wg sync.WaitGroup
+	sem := make(chan struct{}, 12)
+	for _, c := range cands {
+		wg.Add(1)
+		go func(c sweepSite) {
+			defer wg.Done()
+			sem <- struct{}{}
+			defer func() { <-sem }()
+			rel, _ := filepath.Rel(repo, c.file)
+			col := base.Fset.Position(c.pos).Column
+			desc := fmt.Sprintf("%s:%d %s in %s", rel, c.line, c.kind, c.fn)
+			src, err := neutraliseAt(c.file, c.line, col, c.kind)
+			if err != nil {
+				return
+			}
+			p, err := Load(repo, quickConfigs[0], map[string][]byte{c.file: src})
+			if err != nil {
+				mu.Lock()
+				fmt.Printf("UNBUILDABLE\t%s\n", desc)
+				mu.Unlock()
+				return
+			}
+			var hit []string
+			for _, id := range ids {
+				res := NewResult(id, p)
+				func() {
+					defer func() {
+						if e := recover(); e != nil {
+							res.cur = "machinery"
+							res.add(Machinery, "agecheck", "panic", "", fmt.Sprint(e))
+						}
+					}()
+					properties[id].Run(p, res)
+					res.applyFloors()
+				}()
+				for _, o := range res.Obs {
+					if o.Status != Discharged && baseStatus[id][o.Key()] != o.Status {
+						hit = append(hit, id)
+						break
+					}
+				}
+			}
+			mu.Lock()
+			fmt.Printf("%d\t%s\t%s\n", len(hit), desc, strings.Join(hit, ","))
+			mu.Unlock()
+		}(c)
+	}
+	wg.Wait()
+}
